@@ -267,7 +267,12 @@ def monitorC08 : Case → String → String
         let o := row.2.2
         let after := canonLog o.ents b.log.pIdx b.log.pTerm
         let pre := b.log.wf && q.all (fun p => p.1.contig)
-        let v := v.check pre (gapFree after.ents) "follower-log-gapped"
+        -- a prev=(0,0) request inside the queue resets a PURGED follower log but `reset_internal` keeps the old purge
+        -- boundary, so a later request anchored at that stale boundary is accepted above the restarted log: the
+        -- resulting gap is the reset defect (finding F9b), not a conflict-append regression.
+        let resetOnPurged := b.log.pIdx != 0 && q.any (fun p => p.1.prev == 0 && p.1.prevTerm == 0)
+        let v := v.check pre (gapFree after.ents)
+                   (if resetOnPurged then "gap-after-reset-on-purged-log" else "follower-log-gapped")
         match q, o.acks with
         | [(r, _)], [a] =>
           let v := v.check (pre && a.isSuccess && !(r.prev == 0 && r.prevTerm == 0))
